@@ -93,3 +93,19 @@ Theorem C09_bad_severity_fails_closed file b expr op n content e :
   line_count file b = Err e.
 Proof. exact (line_count_bad_severity file b expr op n content e). Qed.
 Print Assumptions C09_bad_severity_fails_closed.
+
+(* Converse of the round trip - everything the parser accepts has the shape  ws OP ws NUMERAL ws  (OP one of the five operators) with a numeral that reads as the bound; any other text is malformed (and then C09_bad_expr applies). *)
+Theorem C09_accepted_language expr op n :
+  parse_constraint expr = Some (op, n) ->
+  exists w1 w2 w3 num, all_ws w1 /\ all_ws w2 /\ all_ws w3 /\ num <> [] /\
+    expr = w1 ++ cop_str op ++ w2 ++ num ++ w3 /\ parse_usize num = Some n.
+Proof. exact (parse_constraint_shape expr op n). Qed.
+Print Assumptions C09_accepted_language.
+
+(* The numeral is an optional '+' followed by one or more ASCII digits whose value is below 2^64 - no sign '-', no blanks inside, no other digits. *)
+Theorem C09_numeral_shape num n :
+  parse_usize num = Some n ->
+  exists ds, (num = ds \/ num = 43 :: ds) /\ ds <> [] /\
+    Forall (fun c => is_ascii_digit c = true) ds /\ digits_val 0 ds = Some n /\ n < 18446744073709551616.
+Proof. exact (parse_usize_shape num n). Qed.
+Print Assumptions C09_numeral_shape.
